@@ -105,6 +105,11 @@ impl Clone for Name {
 //@@ enum MaybeRef
 //@@ struct Lazy
 //@@ struct PromisedRef
+impl Clone for Primitive {
+    // TRUSTED: #[derive(Clone)] on Primitive
+    #[verifier::external_body]
+    fn clone(&self) -> (r: Primitive) ensures r == *self { unimplemented!() }
+}
 impl<T> Clone for Ref<T> { fn clone(&self) -> (r: Ref<T>) ensures r == *self { *self } }
 impl<T> Copy for Ref<T> {}
 
@@ -543,7 +548,289 @@ impl DeepClone for Name {
     fn deep_clone(&self, cloner: &mut AnyCloner) -> (r: Result<Self>) { name_deep_clone(self, cloner) }
 }
 
-// WORLD_C_PLACEHOLDER
+
+// ====================================================================================================================
+// WORLD C: derived DeepClone (pdf_derive output, `file: expanded:pdf`) and Stream<I>
+// ====================================================================================================================
+// Element types nothing here looks inside: OPAQUE, each assumed to satisfy the DeepClone contract (hypothesis on the
+// abstract element type, as `T` in the generic impls above): `abs_is_clone` = its substitution relation.
+pub uninterp spec fn abs_is_clone<T>(a: T, b: T, m: Memo) -> bool;
+#[verifier::external_body]
+pub proof fn hyp_abs_mono<T>(a: T, b: T, m1: Memo, m2: Memo)
+    ensures abs_is_clone(a, b, m1) && submap(m1, m2) ==> abs_is_clone(a, b, m2)
+{}
+pub struct GraphicsStateParameters { opaque: u8 }
+impl DeepClone for GraphicsStateParameters {
+    open spec fn is_clone(&self, c: &Self, m: Memo) -> bool { abs_is_clone(*self, *c, m) }
+    proof fn lemma_mono(&self, c: &Self, m1: Memo, m2: Memo) { hyp_abs_mono(*self, *c, m1, m2); }
+    #[verifier::external_body]
+    fn deep_clone(&self, cloner: &mut AnyCloner) -> (r: Result<Self>) { unimplemented!() }
+}
+pub struct ColorSpace { opaque: u8 }
+impl DeepClone for ColorSpace {
+    open spec fn is_clone(&self, c: &Self, m: Memo) -> bool { abs_is_clone(*self, *c, m) }
+    proof fn lemma_mono(&self, c: &Self, m1: Memo, m2: Memo) { hyp_abs_mono(*self, *c, m1, m2); }
+    #[verifier::external_body]
+    fn deep_clone(&self, cloner: &mut AnyCloner) -> (r: Result<Self>) { unimplemented!() }
+}
+pub struct Pattern { opaque: u8 }
+impl DeepClone for Pattern {
+    open spec fn is_clone(&self, c: &Self, m: Memo) -> bool { abs_is_clone(*self, *c, m) }
+    proof fn lemma_mono(&self, c: &Self, m1: Memo, m2: Memo) { hyp_abs_mono(*self, *c, m1, m2); }
+    #[verifier::external_body]
+    fn deep_clone(&self, cloner: &mut AnyCloner) -> (r: Result<Self>) { unimplemented!() }
+}
+pub struct Font { opaque: u8 }
+impl DeepClone for Font {
+    open spec fn is_clone(&self, c: &Self, m: Memo) -> bool { abs_is_clone(*self, *c, m) }
+    proof fn lemma_mono(&self, c: &Self, m1: Memo, m2: Memo) { hyp_abs_mono(*self, *c, m1, m2); }
+    #[verifier::external_body]
+    fn deep_clone(&self, cloner: &mut AnyCloner) -> (r: Result<Self>) { unimplemented!() }
+}
+pub struct StreamFilter { opaque: u8 }
+impl DeepClone for StreamFilter {
+    open spec fn is_clone(&self, c: &Self, m: Memo) -> bool { abs_is_clone(*self, *c, m) }
+    proof fn lemma_mono(&self, c: &Self, m1: Memo, m2: Memo) { hyp_abs_mono(*self, *c, m1, m2); }
+    #[verifier::external_body]
+    fn deep_clone(&self, cloner: &mut AnyCloner) -> (r: Result<Self>) { unimplemented!() }
+}
+pub struct FileSpec { opaque: u8 }
+impl DeepClone for FileSpec {
+    open spec fn is_clone(&self, c: &Self, m: Memo) -> bool { abs_is_clone(*self, *c, m) }
+    proof fn lemma_mono(&self, c: &Self, m1: Memo, m2: Memo) { hyp_abs_mono(*self, *c, m1, m2); }
+    #[verifier::external_body]
+    fn deep_clone(&self, cloner: &mut AnyCloner) -> (r: Result<Self>) { unimplemented!() }
+}
+pub struct PostScriptDict { opaque: u8 }
+impl DeepClone for PostScriptDict {
+    open spec fn is_clone(&self, c: &Self, m: Memo) -> bool { abs_is_clone(*self, *c, m) }
+    proof fn lemma_mono(&self, c: &Self, m1: Memo, m2: Memo) { hyp_abs_mono(*self, *c, m1, m2); }
+    #[verifier::external_body]
+    fn deep_clone(&self, cloner: &mut AnyCloner) -> (r: Result<Self>) { unimplemented!() }
+}
+pub struct ImageXObject { opaque: u8 }
+impl DeepClone for ImageXObject {
+    open spec fn is_clone(&self, c: &Self, m: Memo) -> bool { abs_is_clone(*self, *c, m) }
+    proof fn lemma_mono(&self, c: &Self, m1: Memo, m2: Memo) { hyp_abs_mono(*self, *c, m1, m2); }
+    #[verifier::external_body]
+    fn deep_clone(&self, cloner: &mut AnyCloner) -> (r: Result<Self>) { unimplemented!() }
+}
+pub struct FormXObject { opaque: u8 }
+impl DeepClone for FormXObject {
+    open spec fn is_clone(&self, c: &Self, m: Memo) -> bool { abs_is_clone(*self, *c, m) }
+    proof fn lemma_mono(&self, c: &Self, m1: Memo, m2: Memo) { hyp_abs_mono(*self, *c, m1, m2); }
+    #[verifier::external_body]
+    fn deep_clone(&self, cloner: &mut AnyCloner) -> (r: Result<Self>) { unimplemented!() }
+}
+pub struct AppearanceStreamEntry { opaque: u8 }
+impl DeepClone for AppearanceStreamEntry {
+    open spec fn is_clone(&self, c: &Self, m: Memo) -> bool { abs_is_clone(*self, *c, m) }
+    proof fn lemma_mono(&self, c: &Self, m1: Memo, m2: Memo) { hyp_abs_mono(*self, *c, m1, m2); }
+    #[verifier::external_body]
+    fn deep_clone(&self, cloner: &mut AnyCloner) -> (r: Result<Self>) { unimplemented!() }
+}
+
+pub type PostScriptXObject = Stream<PostScriptDict>;
+
+//@@ struct StreamInfo
+//@@ enum StreamData
+//@@ struct Stream
+//@@ struct Resources
+//@@ enum XObject
+//@@ struct AppearanceStreams
+
+// "field-wise deep_clone, nothing dropped": the clone of a struct is the struct of the clones of ALL its fields (field
+// lists written from the declarations in object/stream.rs:205, object/types.rs:372, :1038); of an enum, the same variant
+pub open spec fn streaminfo_clone<I: DeepClone>(v: StreamInfo<I>, c: StreamInfo<I>, m: Memo) -> bool {
+    v.filters.is_clone(&c.filters, m) && v.file.is_clone(&c.file, m) && v.file_filters.is_clone(&c.file_filters, m) && v.info.is_clone(&c.info, m)
+}
+pub open spec fn resources_clone(v: Resources, c: Resources, m: Memo) -> bool {
+    v.graphics_states.is_clone(&c.graphics_states, m) && v.color_spaces.is_clone(&c.color_spaces, m) && v.pattern.is_clone(&c.pattern, m)
+    && v.xobjects.is_clone(&c.xobjects, m) && v.fonts.is_clone(&c.fonts, m) && v.properties.is_clone(&c.properties, m)
+}
+pub open spec fn appearance_clone(v: AppearanceStreams, c: AppearanceStreams, m: Memo) -> bool {
+    v.normal.is_clone(&c.normal, m) && v.rollover.is_clone(&c.rollover, m) && v.down.is_clone(&c.down, m)
+}
+pub open spec fn xobject_clone(v: XObject, c: XObject, m: Memo) -> bool {
+    match v {
+        XObject::Postscript(a) => c matches XObject::Postscript(b) && a.is_clone(&b, m),
+        XObject::Image(a) => c matches XObject::Image(b) && a.is_clone(&b, m),
+        XObject::Form(a) => c matches XObject::Form(b) && a.is_clone(&b, m),
+    }
+}
+// Stream<I>: the typed stream -- info cloned, bytes from the SOURCE file (source id, source range) held in memory
+pub open spec fn typed_stream_clone<I: DeepClone>(v: Stream<I>, c: Stream<I>, m: Memo) -> bool {
+    streaminfo_clone(v.info, c.info, m) && match v.inner_data {
+        StreamData::Generated(d) => c.inner_data == StreamData::Generated(d),
+        StreamData::Original(range, id) => c.inner_data matches StreamData::Generated(d) && src_stream(id, range) == Ok::<Arc<[u8]>, PdfError>(d),
+    }
+}
+impl<I: DeepClone> StreamInfo<I> {
+//@@ StreamInfo::deep_clone
+}
+impl<I: DeepClone> DeepClone for StreamInfo<I> {
+    open spec fn is_clone(&self, c: &Self, m: Memo) -> bool { streaminfo_clone(*self, *c, m) }
+    proof fn lemma_mono(&self, c: &Self, m1: Memo, m2: Memo) {
+        self.filters.lemma_mono(&c.filters, m1, m2); self.file.lemma_mono(&c.file, m1, m2); self.file_filters.lemma_mono(&c.file_filters, m1, m2); self.info.lemma_mono(&c.info, m1, m2);
+        if self.is_clone(c, m1) && submap(m1, m2) {
+            assert(streaminfo_clone(*self, *c, m1));
+            assert(self.filters.is_clone(&c.filters, m2));
+            assert(self.file.is_clone(&c.file, m2));
+            assert(self.file_filters.is_clone(&c.file_filters, m2));
+            assert(self.info.is_clone(&c.info, m2));
+        }
+    }
+    fn deep_clone(&self, cloner: &mut AnyCloner) -> (r: Result<Self>) { StreamInfo::deep_clone(self, cloner) }
+}
+impl<I: DeepClone> Stream<I> {
+//@@ Stream::deep_clone
+}
+impl<I: DeepClone> DeepClone for Stream<I> {
+    open spec fn is_clone(&self, c: &Self, m: Memo) -> bool { typed_stream_clone(*self, *c, m) }
+    proof fn lemma_mono(&self, c: &Self, m1: Memo, m2: Memo) { self.info.lemma_mono(&c.info, m1, m2); }
+    fn deep_clone(&self, cloner: &mut AnyCloner) -> (r: Result<Self>) { Stream::deep_clone(self, cloner) }
+}
+impl XObject {
+//@@ XObject::deep_clone
+}
+impl DeepClone for XObject {
+    open spec fn is_clone(&self, c: &Self, m: Memo) -> bool { xobject_clone(*self, *c, m) }
+    proof fn lemma_mono(&self, c: &Self, m1: Memo, m2: Memo) {
+        if self.is_clone(c, m1) && submap(m1, m2) {
+            match *self {
+                XObject::Postscript(a) => { a.lemma_mono(&(c->Postscript_0), m1, m2); }
+                XObject::Image(a) => { a.lemma_mono(&(c->Image_0), m1, m2); }
+                XObject::Form(a) => { a.lemma_mono(&(c->Form_0), m1, m2); }
+            }
+        }
+    }
+    fn deep_clone(&self, cloner: &mut AnyCloner) -> (r: Result<Self>) { XObject::deep_clone(self, cloner) }
+}
+impl Resources {
+//@@ Resources::deep_clone
+}
+impl AppearanceStreams {
+//@@ AppearanceStreams::deep_clone
+}
+
+// ====================================================================================================================
+// WORLD D: resource pruning (content.rs: deep_clone_op) -- "for every resource name those operations use, a resource ..."
+// ====================================================================================================================
+// payload types of the operations: opaque
+pub struct Point { opaque: u8 }
+pub struct ViewRect { opaque: u8 }
+pub struct Winding { opaque: u8 }
+pub struct Matrix { opaque: u8 }
+pub struct LineJoin { opaque: u8 }
+pub struct LineCap { opaque: u8 }
+pub struct RenderingIntent { opaque: u8 }
+pub struct TextMode { opaque: u8 }
+pub struct TextDrawAdjusted { opaque: u8 }
+pub struct Rgb { opaque: u8 }
+pub struct Cmyk { opaque: u8 }
+//@@ enum Color
+//@@ enum Op
+impl Clone for Op {
+    // TRUSTED: #[derive(Clone)] on Op
+    #[verifier::external_body]
+    fn clone(&self) -> (r: Op) ensures r == *self { unimplemented!() }
+}
+impl Clone for Color {
+    // TRUSTED: #[derive(Clone)] on Color
+    #[verifier::external_body]
+    fn clone(&self) -> (r: Color) ensures r == *self { unimplemented!() }
+}
+// R7: `args.last()` (slice::last)
+#[verifier::external_body]
+fn hoist_last(v: &Vec<Primitive>) -> (r: Option<&Primitive>)
+    ensures match r { Some(p) => v@.len() > 0 && *p == v@[v@.len() - 1], None => v@.len() == 0 }
+{ v.last() }
+
+// ---- which resource an operation names.  Written from ISO 32000-1: Table 57 `gs` (dictName: /ExtGState), Table 105 `Tf`
+// (font: /Font), Table 87 `Do` (name: /XObject), Table 74 `CS`/`cs` (name: /ColorSpace unless a device family or Pattern)
+// and `SCN`/`scn` (last operand a name: /Pattern), Table 320 `DP`/`BDC` (properties a name: /Properties), Table 77 `sh`
+// (name: /Shading).
+pub enum Cat { ExtGState, ColorSpace, Pattern, XObject, Font, Properties, Shading }
+pub open spec fn color_pattern_name(c: Color) -> Option<Name> {
+    match c {
+        Color::Other(args) => if args@.len() > 0 && args@[args@.len() - 1] is Name { Some(Name(args@[args@.len() - 1]->Name_0)) } else { None },
+        _ => None,
+    }
+}
+pub open spec fn props_name(p: Option<Primitive>) -> Option<Name> {
+    match p { Some(Primitive::Name(s)) => Some(Name(s)), _ => None }
+}
+pub open spec fn uses(op: Op) -> Option<(Cat, Name)> {
+    match op {
+        Op::GraphicsState { name } => Some((Cat::ExtGState, name)),
+        Op::TextFont { name, size } => Some((Cat::Font, name)),
+        Op::XObject { name } => Some((Cat::XObject, name)),
+        Op::FillColorSpace { name } => Some((Cat::ColorSpace, name)),
+        Op::StrokeColorSpace { name } => Some((Cat::ColorSpace, name)),
+        Op::FillColor { color } => match color_pattern_name(color) { Some(n) => Some((Cat::Pattern, n)), None => None },
+        Op::StrokeColor { color } => match color_pattern_name(color) { Some(n) => Some((Cat::Pattern, n)), None => None },
+        Op::BeginMarkedContent { tag, properties } => match props_name(properties) { Some(n) => Some((Cat::Properties, n)), None => None },
+        Op::MarkedContentPoint { tag, properties } => match props_name(properties) { Some(n) => Some((Cat::Properties, n)), None => None },
+        Op::Shade { name } => Some((Cat::Shading, name)),
+        _ => None,
+    }
+}
+// the entry `name` of category `cat` of `src` is in `dst`, as a clone under `m` (a name the source does not define --
+// a device colour space, an undefined name -- needs nothing)
+pub open spec fn entry_kept(cat: Cat, name: Name, src: Resources, dst: Resources, m: Memo) -> bool {
+    match cat {
+        Cat::ExtGState => src.graphics_states@.dom().contains(name) ==> dst.graphics_states@.dom().contains(name) && src.graphics_states@[name].is_clone(&dst.graphics_states@[name], m),
+        Cat::ColorSpace => src.color_spaces@.dom().contains(name) ==> dst.color_spaces@.dom().contains(name) && src.color_spaces@[name].is_clone(&dst.color_spaces@[name], m),
+        Cat::Pattern => src.pattern@.dom().contains(name) ==> dst.pattern@.dom().contains(name) && src.pattern@[name].is_clone(&dst.pattern@[name], m),
+        Cat::XObject => src.xobjects@.dom().contains(name) ==> dst.xobjects@.dom().contains(name) && src.xobjects@[name].is_clone(&dst.xobjects@[name], m),
+        Cat::Font => src.fonts@.dom().contains(name) ==> dst.fonts@.dom().contains(name) && src.fonts@[name].is_clone(&dst.fonts@[name], m),
+        Cat::Properties => src.properties@.dom().contains(name) ==> dst.properties@.dom().contains(name) && src.properties@[name].is_clone(&dst.properties@[name], m),
+        // `Resources` has no /Shading entry (object/types.rs:382 "// shading: Option<Shading>"): nothing to keep, nothing kept
+        Cat::Shading => DEV_SHADING_RESOURCES_NOT_MODELLED(),
+    }
+}
+// what was collected before is kept as it is (the resources of a page are collected over ALL its operations)
+pub open spec fn map_kept<V>(a: Map<Name, V>, b: Map<Name, V>) -> bool {
+    forall|k: Name| #![trigger a.dom().contains(k)] a.dom().contains(k) ==> b.dom().contains(k) && b[k] == a[k]
+}
+pub open spec fn resources_kept(a: Resources, b: Resources) -> bool {
+    map_kept(a.graphics_states@, b.graphics_states@) && map_kept(a.color_spaces@, b.color_spaces@) && map_kept(a.pattern@, b.pattern@)
+    && map_kept(a.xobjects@, b.xobjects@) && map_kept(a.fonts@, b.fonts@) && map_kept(a.properties@, b.properties@)
+}
+// every entry collected so far is a clone of the source's entry of the same name (so that "kept as it is" + monotone
+// memo carries `entry_kept` of earlier operations to the end of the page)
+pub open spec fn pruned_of(src: Resources, dst: Resources, m: Memo) -> bool {
+    &&& forall|k: Name| #![trigger dst.graphics_states@.dom().contains(k)] dst.graphics_states@.dom().contains(k) ==> src.graphics_states@.dom().contains(k) && src.graphics_states@[k].is_clone(&dst.graphics_states@[k], m)
+    &&& forall|k: Name| #![trigger dst.color_spaces@.dom().contains(k)] dst.color_spaces@.dom().contains(k) ==> src.color_spaces@.dom().contains(k) && src.color_spaces@[k].is_clone(&dst.color_spaces@[k], m)
+    &&& forall|k: Name| #![trigger dst.pattern@.dom().contains(k)] dst.pattern@.dom().contains(k) ==> src.pattern@.dom().contains(k) && src.pattern@[k].is_clone(&dst.pattern@[k], m)
+    &&& forall|k: Name| #![trigger dst.xobjects@.dom().contains(k)] dst.xobjects@.dom().contains(k) ==> src.xobjects@.dom().contains(k) && src.xobjects@[k].is_clone(&dst.xobjects@[k], m)
+    &&& forall|k: Name| #![trigger dst.fonts@.dom().contains(k)] dst.fonts@.dom().contains(k) ==> src.fonts@.dom().contains(k) && src.fonts@[k].is_clone(&dst.fonts@[k], m)
+    &&& forall|k: Name| #![trigger dst.properties@.dom().contains(k)] dst.properties@.dom().contains(k) ==> src.properties@.dom().contains(k) && src.properties@[k].is_clone(&dst.properties@[k], m)
+}
+pub proof fn lemma_pruned_mono(src: Resources, dst: Resources, m1: Memo, m2: Memo)
+    ensures pruned_of(src, dst, m1) && submap(m1, m2) ==> pruned_of(src, dst, m2)
+{
+    if pruned_of(src, dst, m1) && submap(m1, m2) {
+        assert forall|k: Name| #![trigger dst.graphics_states@.dom().contains(k)] dst.graphics_states@.dom().contains(k) implies src.graphics_states@[k].is_clone(&dst.graphics_states@[k], m2) by { src.graphics_states@[k].lemma_mono(&dst.graphics_states@[k], m1, m2); }
+        assert forall|k: Name| #![trigger dst.color_spaces@.dom().contains(k)] dst.color_spaces@.dom().contains(k) implies src.color_spaces@[k].is_clone(&dst.color_spaces@[k], m2) by { src.color_spaces@[k].lemma_mono(&dst.color_spaces@[k], m1, m2); }
+        assert forall|k: Name| #![trigger dst.pattern@.dom().contains(k)] dst.pattern@.dom().contains(k) implies src.pattern@[k].is_clone(&dst.pattern@[k], m2) by { src.pattern@[k].lemma_mono(&dst.pattern@[k], m1, m2); }
+        assert forall|k: Name| #![trigger dst.xobjects@.dom().contains(k)] dst.xobjects@.dom().contains(k) implies src.xobjects@[k].is_clone(&dst.xobjects@[k], m2) by { src.xobjects@[k].lemma_mono(&dst.xobjects@[k], m1, m2); }
+        assert forall|k: Name| #![trigger dst.fonts@.dom().contains(k)] dst.fonts@.dom().contains(k) implies src.fonts@[k].is_clone(&dst.fonts@[k], m2) by { src.fonts@[k].lemma_mono(&dst.fonts@[k], m1, m2); }
+        assert forall|k: Name| #![trigger dst.properties@.dom().contains(k)] dst.properties@.dom().contains(k) implies src.properties@[k].is_clone(&dst.properties@[k], m2) by { src.properties@[k].lemma_mono(&dst.properties@[k], m1, m2); }
+    }
+}
+// the operation itself: the same operation; the inline property list of a marked-content operator is cloned
+pub open spec fn op_clone(op: Op, c: Op, m: Memo) -> bool {
+    match op {
+        Op::BeginMarkedContent { tag, properties } => c matches Op::BeginMarkedContent { tag: t2, properties: p2 } && t2 == tag && properties.is_clone(&p2, m),
+        Op::MarkedContentPoint { tag, properties } => c matches Op::MarkedContentPoint { tag: t2, properties: p2 } && t2 == tag && properties.is_clone(&p2, m),
+        _ => c == op,
+    }
+}
+//@@ clone_named_color_space
+//@@ clone_named_pattern
+//@@ clone_named_properties
+//@@ deep_clone_op
 
 
 // ====================================================================================================================
